@@ -85,12 +85,12 @@ impl ArbiterHandle {
 impl System {
 //@extract file=actix-rt/src/system.rs item="impl System / fn set_current" props=C10,C09 name=system::set_current tls_state="CURRENT:current" tls_calls="System::set_current,System::current,System::try_current,System::is_registered,Arbiter::current,Arbiter::try_current"
 //@spec
-    ensures final(r25_tls).current.v == Some(sys), final(r25_tls).handle == old(r25_tls).handle,   // [C10]
+    ensures final(r25_tls).current.v == Some(sys), final(r25_tls).handle == old(r25_tls).handle,   // [C09,C10] the LATEST system wins: arbiters created next register with it
 //@end
 //@extract file=actix-rt/src/system.rs item="impl System / fn current" ret=r props=C10,C09 name=system::current tls_state="CURRENT:current" tls_calls="System::set_current,System::current,System::try_current,System::is_registered,Arbiter::current,Arbiter::try_current" intended_panics
 //@spec
     requires old(r25_tls).current.v is Some,     // "System is not running": the documented panic
-    ensures is_sys(old(r25_tls).current.v, &r), *final(r25_tls) == *old(r25_tls),   // [C10] the system registered on THIS thread
+    ensures is_sys(old(r25_tls).current.v, &r), *final(r25_tls) == *old(r25_tls),   // [C09,C10] the system registered on THIS thread
 //@end
 //@extract file=actix-rt/src/system.rs item="impl System / fn try_current" ret=r props=C10,C09 name=system::try_current tls_state="CURRENT:current" tls_calls="System::set_current,System::current,System::try_current,System::is_registered,Arbiter::current,Arbiter::try_current"
 //@spec
@@ -209,7 +209,7 @@ Runtime::from(
 //@insert before="({ let r24_v = ready_tx"
         // BEFORE the creating thread is told the arbiter is ready: this thread's System is the creator's, its arbiter handle
         // feeds this arbiter's queue, and the arbiter has been REGISTERED with the system (one command sent so far)   [C09,C10]
-        assert(is_sys(r25_tls.current.v, &sys) && is_hnd(r25_tls.handle.v, rx.chan()));   // [C10]
+        assert(is_sys(r25_tls.current.v, &sys) && is_hnd(r25_tls.handle.v, rx.chan()));   // [C09,C10]
         assert(r24_trace == seq![1int]);   // [C09] registered before ready
 //@insert fn_exit=1
         // then: ready, the command loop runs on THIS arbiter's queue, and the arbiter is deregistered when the loop has ended   [C09,C10]
